@@ -815,8 +815,7 @@ def m_time_now(ex, st, args, ins, fn):
     sec = z3.BitVec(ex.fresh_name('now_s'), 64)
     c = z3.And(z3.ULT(ns, 1000000000), sec >= 0, sec < (1 << 40))
     ex.add_constraint(st, c)
-    st.nondets.append(('time_ns', ns))
-    st.nondets.append(('time_s', sec))
+    # not recorded in the witness: the native replay reads the real clock
     return (ns, sec, None)
 
 
